@@ -57,7 +57,7 @@ func c19NotTemplated(c *Check, a *Anchors) {
 					}
 				}
 			}
-			c.Decide(!(usesValue && templated), "forwarded-not-templated", what+"@"+fnDisplay(fb), call.Pos(), "not bound to a template-evaluated field",
+			c.Decide(!(usesValue && templated), "forwarded-not-templated", what+"@command-line-binding", call.Pos(), "not bound to a template-evaluated field",
 				what+" is stored as ast.Var{Value: …} and every global variable's Value is passed through templater.ReplaceVar by the variable resolver: template syntax inside the forwarded bytes (e.g. '{{.TASK}}') is expanded instead of reaching the command verbatim")
 		}
 		if n == 0 {
